@@ -18,3 +18,10 @@ package sm
 //@ lemma X_differing_healthy_mixed C11: forall a State, b State ::
 //@     a != b && a != ERROR && b != ERROR && a != INVARIANT && b != INVARIANT ==> a.X(b) == MIXED
 //@ lemma X_closed C11: forall a State, b State :: validState(a) && validState(b) ==> validState(a.X(b))
+
+//@ func (s State) String() (r string)
+//@   property C01
+//@   opt init-globals=sm._names
+//@   pure
+//@   ensures s == ERROR ==> r == "ERROR"
+//@   ensures s == DONE ==> r == "DONE"
